@@ -394,15 +394,47 @@ class Effects:
                 out.append(n)
         return out
 
+    def _keys_of(self, f: FunctionInfo, e: ast.AST, at: ast.AST) -> str:
+        """the mapping / sequence whose keys (elements) ``e`` ranges over: locals with one definition are read through,
+        list() / sorted() / .keys() / .items() / .copy() and slices are stripped"""
+        from .shape import inline_locals
+
+        try:
+            base = inline_locals(f, e, at)
+        except Exception:
+            base = e
+        for _ in range(6):
+            if isinstance(base, ast.Call) and isinstance(base.func, ast.Attribute) and base.func.attr in ("keys", "items", "copy") and not base.args:
+                base = base.func.value
+            elif isinstance(base, ast.Call) and isinstance(base.func, ast.Name) and base.func.id in ("list", "sorted", "tuple", "set") \
+                    and len(base.args) == 1 and not base.keywords:
+                base = base.args[0]
+            elif isinstance(base, ast.Subscript) and isinstance(base.slice, ast.Slice):
+                base = base.value
+            else:
+                break
+        return norm(base)
+
     def _membership_guard(self, f: FunctionInfo, cfg: CFG, node: ast.AST, container: ast.AST, key: ast.AST) -> Optional[str]:
         ctext, ktext = norm(container), norm(key)
         # the sense of the tests (dominating, short-circuit, conditional expression), not their spelling
         from .shape import _atomise, _norm_fact
 
+        cbase = self._keys_of(f, container, node)
         for test, lab in list(self._dominating_tests(cfg, node)) + list(_short_circuit_facts(f.node, node)):
             for e_, truth_ in _atomise(test, lab == "true"):
                 if truth_ and _norm_fact(e_) == f"{ktext} in {ctext}":
                     return f"guarded by `{ktext} in {ctext}`"
+                if truth_ and isinstance(e_, ast.Compare) and len(e_.ops) == 1 and isinstance(e_.ops[0], ast.In) and norm(e_.left) == ktext \
+                        and self._keys_of(f, e_.comparators[0], node) == cbase:
+                    return f"guarded by `{norm(e_)}` (the same keys as `{ctext}`)"
+        # the key ranges over the container's own keys in an enclosing comprehension
+        for comp in [n for n in own_nodes(f.node) if isinstance(n, (ast.ListComp, ast.SetComp, ast.DictComp, ast.GeneratorExp))
+                     and any(x is node for x in ast.walk(n))]:
+            for gen in comp.generators:
+                tnames = [norm(t) for t in (gen.target.elts if isinstance(gen.target, ast.Tuple) else [gen.target])]
+                if tnames and tnames[0] == ktext and self._keys_of(f, gen.iter, comp) == cbase:
+                    return f"key iterates over `{norm(gen.iter)}`"
         for test, lab in self._dominating_tests(cfg, node):
             for cmp_ in [x for x in ast.walk(test) if isinstance(x, ast.Compare)]:
                 if len(cmp_.ops) != 1:
